@@ -103,7 +103,7 @@ fn cases(tier: Tier) -> &'static Vec<Case> {
                                 let sc = Scenario {
                                     conns: vec![ConnSpec::default()],
                                     script,
-                                    app: AppProgram { plans, recv: RecvStyle::Recv, deferred: false },
+                                    app: AppProgram { plans, recv: RecvStyle::Recv, deferred: false, thread_per_request: false },
                                     probe_after: false,
                                     idle_after: false,
                                 };
